@@ -20,6 +20,9 @@ resf = os.path.join(VERIF, "seeded", "results.json")
 if os.environ.get("RESUME") and os.path.exists(resf):
     out = json.load(open(resf))
     jobs = [j for j in jobs if j[0] not in out]
+if os.environ.get("ONLY"):
+    order = os.environ["ONLY"].split(",")
+    jobs = sorted([j for j in jobs if j[0] in order], key=lambda j: order.index(j[0]))
 streams = int(sys.argv[2]) if len(sys.argv) > 2 else 1
 lock = threading.Lock()
 todo = list(jobs)
